@@ -29,7 +29,8 @@ def build(am, with_bond_types=True):
         mode = am.n() % 3
         for k, (u, v) in enumerate(g.edges):
             if mode == 0 or (mode == 1 and k % 2 == 0):
-                g.edges[u, v]["bond_type"] = 1 + (k % 3)
+                # single, double, triple, aromatic, coordination (9), hydrogen bond (10), "any" (8): no bond type changes the constitution
+                g.edges[u, v]["bond_type"] = (1, 2, 3, 9, 1, 4, 10, 2, 8)[(k + am.n()) % 9]
     return g
 
 
@@ -79,6 +80,10 @@ def check_one(run, model, am, opts, nrel, rng, groups=None):
         g = scramble(g, rng)
         facts["scrambled_base"] = True
         run.count("base:scrambled")
+    if rng.random() < 0.15:
+        # a frozen graph (nx.freeze) is a molecule graph like any other: structure read-only, attribute dictionaries shared
+        g = nx.freeze(g)
+        run.count("base:frozen")
     before = snapshot(g)
     lab_of = {d[TRACER]: a for a, d in g.nodes(data=True)}     # tracer (position in am) -> label in g
     tr_of = {a: d[TRACER] for a, d in g.nodes(data=True)}
